@@ -19,6 +19,10 @@
 //	FMT ::= (xDIRECTIVE SEP SEP2 CF)   SEP, SEP2 ::= - | xHEX     CF ::= - | ((KEY FMT)*)
 //	KEY ::= any scalar numeric int float str bool bin arr hash coll undef dflt regexp object type  (the parameterless types)
 //	        | semver semverrange uri timespan timestamp sensitive   (op fmtx only)
+//   op fmtt (maps keyed by ARBITRARY types):  ctx ::= (tmap ((T xNAME) FMT)*) | (tmmap ((T xNAME) FMT)*)  — as map / mmap; T is a
+//	             type term of the lattice model (harness/lat/doc.go) built here by lat.BuildCtor, NAME its String() (what the
+//	             merged map is ordered by last; checked against the built type by the predicate payload-mismatch)
+//   op keysubx A B : px.IsAssignable on the 22 default types
 //
 // out: `text xHEX` | `reported <CODE>` | `fault` | `timeout`
 package c20
@@ -36,6 +40,7 @@ import (
 	"unicode/utf8"
 
 	"verif/harness/core"
+	"verif/harness/lat"
 	"verif/harness/sx"
 
 	"github.com/lyraproj/issue/issue"
@@ -361,10 +366,13 @@ type node struct {
 }
 
 type entry struct {
-	key string  // any … regexp, or "self"
-	typ px.Type // the key type
-	n   *node
+	key  string  // any … regexp, "self", or "ty:<String() of the type>" for a key given as a type term
+	typ  px.Type // the key type
+	term sx.Sexp // the type term of a "ty:" key
+	n    *node
 }
+
+func (e entry) typed() bool { return strings.HasPrefix(e.key, "ty:") }
 
 func newNode(directive string) *node {
 	d := parseDir(directive)
@@ -488,7 +496,7 @@ func kindKey(tag string) string {
 }
 
 func (e entry) accepts(tag string, v px.Value) bool {
-	if e.key == "self" {
+	if e.key == "self" || e.typed() {
 		return px.IsAssignable(e.typ, v.PType())
 	}
 	return strings.Contains(keyAccepts[e.key], tag)
@@ -543,10 +551,38 @@ func nodeOf(e sx.Sexp) *node {
 func entriesOf(xs []sx.Sexp) []entry {
 	m := make([]entry, len(xs))
 	for i, kv := range xs {
+		if kv.List[0].IsList {
+			// (T xNAME): a key given as a type term of the lattice model
+			term, err := lat.ParseTy(kv.List[0].List[0])
+			if err != nil {
+				panic(err)
+			}
+			t, err := lat.EnvOf(curCtx).BuildCtor(term)
+			if err != nil {
+				panic(err)
+			}
+			m[i] = entry{key: "ty:" + kv.List[0].List[1].MustStr(), typ: t, term: kv.List[0].List[0], n: nodeOf(kv.List[1])}
+			continue
+		}
 		k := kv.List[0].Atom
 		m[i] = entry{key: k, typ: keyType(k), n: nodeOf(kv.List[1])}
 	}
 	return m
+}
+
+// keyPayloadMismatch: the String() the op line gives the model for a typed key against the type built from its term
+func keyPayloadMismatch(m []entry) string {
+	for _, e := range m {
+		if e.typed() && e.typ.String() != e.key[3:] {
+			return fmt.Sprintf("the key type %s prints as %q, the op says %q", e.term.String(), e.typ.String(), e.key[3:])
+		}
+		if e.n.hasCf {
+			if why := keyPayloadMismatch(e.n.cf); why != "" {
+				return why
+			}
+		}
+	}
+	return ""
 }
 
 // the px value handed to types.NewFormatMap
@@ -578,9 +614,10 @@ func formatMapValue(m []entry) *types.Hash {
 // ---- contexts -------------------------------------------------------------------------------------------------------
 
 type fctx struct {
-	mode string // kind self new map
-	top  *node  // the single directive of kind/self/new
-	m    []entry
+	mode  string // kind self new map mmap
+	typed bool   // tmap / tmmap: keys are type terms
+	top   *node  // the single directive of kind/self/new
+	m     []entry
 }
 
 func ctxOf(e sx.Sexp, tag string, v px.Value) *fctx {
@@ -594,6 +631,10 @@ func ctxOf(e sx.Sexp, tag string, v px.Value) *fctx {
 		c.top = newNode(e.Args()[0].MustStr())
 		c.m = []entry{{key: "self", typ: v.PType(), n: c.top}}
 	case "map", "mmap":
+		c.m = entriesOf(e.Args())
+	case "tmap", "tmmap":
+		c.mode = c.mode[1:]
+		c.typed = true
 		c.m = entriesOf(e.Args())
 	default:
 		panic("bad ctx " + e.String())
@@ -1223,13 +1264,16 @@ func exec(c px.Context, op string, args []sx.Sexp) core.Result {
 	if op == "back" && len(args) == 2 {
 		return execBack(c, args[0].MustStr(), args[1].MustInt())
 	}
+	if op == "keysubx" && len(args) == 2 {
+		return core.Result{Out: sx.B(px.IsAssignable(keyType(args[0].Atom), keyType(args[1].Atom))), Pred: "ok", Tags: []string{"op:keysubx"}}
+	}
 	if op == "keysub" && len(args) == 2 {
 		// px.IsAssignable on the key types of format maps (the relation mergeFormats sorts and rejects by)
 		return core.Result{Out: sx.B(px.IsAssignable(keyType(args[0].Atom), keyType(args[1].Atom))), Pred: "ok", Tags: []string{"op:keysub"}}
 	}
 	// fmtf = fmt with an oracle of fmt.Sprintf results for the Lean driver (ignored here); fmtx = fmt for the driver of the
 	// extended model (every value kind)
-	if !(((op == "fmt" || op == "fmtx") && len(args) == 2) || (op == "fmtf" && len(args) == 4)) {
+	if !(((op == "fmt" || op == "fmtx" || op == "fmtt") && len(args) == 2) || (op == "fmtf" && len(args) == 4)) {
 		return core.Result{Out: "bad-op", Pred: "FAIL harness-bad-op " + op}
 	}
 	curCtx = c
@@ -1241,6 +1285,9 @@ func exec(c px.Context, op string, args []sx.Sexp) core.Result {
 		return core.Result{Out: "payload-mismatch", Pred: "FAIL payload-mismatch " + oneLine(why)}
 	}
 	fc := ctxOf(args[0], tag, v)
+	if why := keyPayloadMismatch(fc.m); why != "" {
+		return core.Result{Out: "payload-mismatch", Pred: "FAIL payload-mismatch " + oneLine(why)}
+	}
 	out := renderTop(c, fc, tag, v)
 
 	if fc.mode == "mmap" {
@@ -1585,10 +1632,18 @@ func kindsIn(e sx.Sexp, into map[byte]bool) {
 		for _, k := range e.Args() {
 			kindsIn(k, into)
 		}
-	case "h":
-		for _, kv := range e.Args() {
+	case "h", "o":
+		for _, kv := range entriesOfValue(e) {
 			kindsIn(kv.List[0], into)
 			kindsIn(kv.List[1], into)
+		}
+	case "t":
+		// the parameters of a Type are formatted as an Array
+		if len(e.Args()) > 2 {
+			into['a'] = true
+			for _, k := range e.Args()[2:] {
+				kindsIn(k, into)
+			}
 		}
 	}
 }
@@ -1676,8 +1731,11 @@ func execMerged(c px.Context, fc *fctx, tag string, ve sx.Sexp, v px.Value, out 
 		// NaN and ±Inf are not instances of Float (its range is ±MaxFloat64): no Float entry applies to them
 		return res("n/a")
 	}
+	if fc.typed {
+		return execMergedTyped(c, fc, tag, ve, v, out, res, fail)
+	}
 	// the user's directive for the exact type of a scalar applies to it
-	if !isContainerTag(tag) {
+	if !isContainerTag(tag) && !(tag == "t" && len(ve.Args()) > 2) {
 		for _, e := range fc.m {
 			if e.key == kindKey(tag) && !e.n.hasSep && !e.n.hasSep2 && !e.n.hasCf {
 				want := renderTop(c, &fctx{mode: "kind", top: e.n, m: []entry{{key: e.key, typ: e.typ, n: e.n}}}, tag, v)
@@ -1691,8 +1749,8 @@ func execMerged(c px.Context, fc *fctx, tag string, ve sx.Sexp, v px.Value, out 
 	// an entry for a type that has no instance inside the value does not matter
 	kinds := map[byte]bool{}
 	kindsIn(ve, kinds)
-	if kinds['h'] {
-		kinds['a'] = true // a hash formatted with %a is rendered as the array of its entries
+	if kinds['h'] || kinds['o'] {
+		kinds['a'] = true // a hash (or the init hash of an object) formatted with %a is rendered as the array of its entries
 	}
 	if pm, changed := prune(fc.m, kinds, true); changed {
 		other := renderMerged(c, v, pm)
@@ -1702,6 +1760,89 @@ func execMerged(c px.Context, fc *fctx, tag string, ve sx.Sexp, v px.Value, out 
 			return fail("irrelevant-entry-matters", fmt.Sprintf("got %q; without the entries whose type has no instance in the value: %q (%s)", text, ot, other))
 		}
 		tags = append(tags, "pruned")
+	}
+	return res("ok")
+}
+
+// the keys of types.DefaultFormats
+var defaultFormatKeys = []string{"object", "type", "float", "numeric", "arr", "hash", "bin", "any"}
+
+// execMergedTyped: `fmtt (tmmap …) v` — the user's map keyed by arbitrary types, merged with the defaults.  Directly on the
+// implementation (px.IsAssignable as the oracle of the order): among the keys of the merged map — the user's keys and the
+// default keys that no different user key accepts — that accept a scalar v, when one is the most specific (every other accepting
+// key accepts it) and it is a user key with a plain directive that is not a default's key, v is rendered by that directive
+func execMergedTyped(c px.Context, fc *fctx, tag string, ve sx.Sexp, v px.Value, out string, res func(string) core.Result,
+	fail func(string, string) core.Result) core.Result {
+	if isContainerTag(tag) || tag == "t" {
+		return res("ok")
+	}
+	type cand struct {
+		t    px.Type
+		user *entry
+	}
+	var cands []cand
+	for i := range fc.m {
+		cands = append(cands, cand{fc.m[i].typ, &fc.m[i]})
+	}
+	for _, dk := range defaultFormatKeys {
+		dt := keyType(dk)
+		dropped, same := false, false
+		for _, e := range fc.m {
+			if e.typ.Equals(dt, nil) {
+				same = true
+			} else if px.IsAssignable(e.typ, dt) {
+				dropped = true
+			}
+		}
+		if !dropped && !same {
+			cands = append(cands, cand{dt, nil})
+		}
+		if same {
+			// merged with the default entry: the user's directive, but not a plain entry any more
+			for i := range cands {
+				if cands[i].user != nil && cands[i].t.Equals(dt, nil) {
+					cands[i].user = nil
+				}
+			}
+		}
+	}
+	vt := v.PType()
+	var acc []cand
+	for _, k := range cands {
+		if px.IsAssignable(k.t, vt) {
+			acc = append(acc, k)
+		}
+	}
+	for _, k := range acc {
+		least := true
+		for _, o := range acc {
+			if !px.IsAssignable(o.t, k.t) {
+				least = false
+			}
+		}
+		if !least {
+			continue
+		}
+		// strictly below every other accepting key?
+		strict := true
+		for _, o := range acc {
+			if o.t != k.t && px.IsAssignable(k.t, o.t) {
+				strict = false
+			}
+		}
+		if !strict || k.user == nil || k.user.n.hasSep || k.user.n.hasSep2 || k.user.n.hasCf {
+			return res("ok")
+		}
+		want := deadline(func() string {
+			return textOut(px.ToString2(v, px.NewFormatContext(k.t, px.NewFormat(k.user.n.d.raw), px.NewIndentation(false, 0))))
+		})
+		if want != out {
+			wt, _ := isText(want)
+			text, _ := isText(out)
+			return fail("most-specific-ignored", fmt.Sprintf("the map gives %s for %s, the most specific key that accepts the value; alone it renders %q (%s); got %q",
+				k.user.n.d.raw, k.t.String(), wt, want, text))
+		}
+		return res("ok")
 	}
 	return res("ok")
 }
